@@ -128,6 +128,18 @@ def build(backend, tier):
     add("method:column", per.format("j.scaled(j.eta())"), mmd, {"__method__scaled": lambda self, v: self.pt() * v})
     add("method:literal-arg", per.format("j.scaled(2)"), mmd, {"__method__scaled": lambda self, v: self.pt() * v})
     add("method:in-where", f"ds.Select(lambda e: {S}.Where(lambda j: j.scaled(2) > 1).Count())", mmd, {"__method__scaled": lambda self, v: self.pt() * v})
+    # methods with NO parameter (only the method object is bound), and with two
+    m0 = [spec("twicept", [], [f"double result = obj_x{arrow}pt() * 2;"], method_object="obj_x")]
+    add("method0:column", per.format("j.twicept()"), m0, {"__method__twicept": lambda self: self.pt() * 2})
+    add("method0:in-arith", per.format("(j.twicept() + j.eta())"), m0, {"__method__twicept": lambda self: self.pt() * 2})
+    add("method0:in-where", f"ds.Select(lambda e: {S}.Where(lambda j: j.twicept() > 1).Count())", m0, {"__method__twicept": lambda self: self.pt() * 2})
+    add("method0:twice", per.format("(j.twicept(), j.twicept() * 2)"), m0, {"__method__twicept": lambda self: self.pt() * 2})
+    add("method0:with-argument", per.format("j.twicept(1)"), m0, {}, expect="refuse")
+    mm2 = [spec("lin", ["a", "b"], [f"double result = obj_x{arrow}pt() * a + b;"], method_object="obj_x")] + m0
+    add("method2:column", per.format("j.lin(j.eta(), 2)"), mm2, {"__method__lin": lambda self, a_, b_: self.pt() * a_ + b_})
+    add("method2:with-method0-argument", per.format("j.lin(j.twicept(), j.eta())"), mm2, {"__method__lin": lambda self, a_, b_: self.pt() * a_ + b_, "__method__twicept": lambda self: self.pt() * 2})
+    f0 = [spec("seven", [], ["double result = 7;"])]
+    add("fn0:column", per.format("(seven() + j.pt())"), f0, {"seven": lambda: 7})
     add("method:as-function", per.format("scaled(j, 2)"), mmd, {}, expect="refuse")
     add("method:wrong-arity", per.format("j.scaled()"), mmd, {}, expect="refuse")
     add("method:wrong-arity+", per.format("j.scaled(1, 2)"), mmd, {}, expect="refuse")
